@@ -49,7 +49,9 @@ def showVal (a : Addr) (v : Validator) : String :=
 
 def dump (L : Ledger) : String :=
   s!"h={L.height} sup={L.supply.total}/{L.supply.staked}/{L.supply.delegatedOnly} cs={showNMap L.supply.committee} cd={showNMap L.supply.delegated}" ++
-  s!" acc={join "," (L.accounts.map fun (a, x) => s!"{showAddr a}:{x}")} pool={showNMap L.pools}" ++
+  s!" acc={join "," (L.accounts.map fun (a, x) => match AMap.find? L.vesting a with
+      | some t => s!"{showAddr a}:{x}:{t.amount}/{t.start}/{t.cliff}/{t.stop}"
+      | none => s!"{showAddr a}:{x}")} pool={showNMap L.pools}" ++
   s!" val={join "," (L.validators.map fun (a, v) => showVal a v)}" ++
   s!" unst={join "," (L.unstaking.map fun ((h, a), _) => s!"{h}:{showAddr a}")}" ++
   s!" paus={join "," (L.paused.map fun ((h, a), _) => s!"{h}:{showAddr a}")}" ++
@@ -105,7 +107,13 @@ def parseGenesis (ws : List String) : Option (M Ledger) := do
 
 def parseMsg (kind : String) (ws : List String) : Option Msg :=
   match kind with
-  | "send" => do pure (.send (← kvAddr ws "from") (← kvAddr ws "to") (← kvNat ws "amount"))
+  | "send" => do
+    -- one message kind in the code; the model has a constructor of its own for "not all three vesting heights are 0"
+    match kvNat ws "vs", kvNat ws "vc", kvNat ws "ve" with
+    | some vs, some vc, some ve =>
+      if vs = 0 && vc = 0 && ve = 0 then pure (.send (← kvAddr ws "from") (← kvAddr ws "to") (← kvNat ws "amount"))
+      else pure (.sendVesting (← kvAddr ws "from") (← kvAddr ws "to") (← kvNat ws "amount") vs vc ve)
+    | _, _, _ => pure (.send (← kvAddr ws "from") (← kvAddr ws "to") (← kvNat ws "amount"))
   | "stake" => do
     pure (.stake (← kvAddr ws "addr") (← kvNat ws "amount") (← (kv ws "cs").bind (parseNats · "/")) (← kvBool ws "deleg") (← kvBool ws "comp") (← kvAddr ws "out"))
   | "editStake" => do
